@@ -95,7 +95,7 @@ PComments == { NoCmt, Cmt(1, <<>>), Cmt(0, <<1>>), Cmt(0, <<2, 4>>), Cmt(2, <<>>
 FamPostings(u) ==
     { Case("postings", "", << [BaseTx EXCEPT !.posts[1] = [ind |-> i, st |-> s, kind |-> k, acct |-> a, gap |-> g,
                                                            amt |-> <<Amt(1050, 2, 4)>>, cost |-> c, asrt |-> b, cmt |-> pc]] >>) :
-          i \in {0, 1, 2, 4, 8}, s \in {"", "*", "!"}, k \in {"real", "paren", "bracket"}, a \in 1..Len(Accounts), g \in {2, 5},
+          i \in {0, 1, 2, 4, 8}, s \in {"", "*", "!"}, k \in {"real", "paren", "bracket"}, a \in 1..Len(Accounts), g \in {2, 5, 0},
           c \in PCosts, b \in PAsrts, pc \in PComments }
     \cup { Case("postings-trigger", "lower-commodity-before-operator",
                  << [BaseTx EXCEPT !.posts[1].amt = <<Amt(150, 1, 9)>>, !.posts[1].cost = cb[1], !.posts[1].asrt = cb[2]] >>) :
@@ -111,7 +111,7 @@ FamPostings(u) ==
           i \in {0, 2, 4}, s \in {"", "*"}, k \in {"real", "paren", "bracket"}, a \in 1..Len(Accounts), pc \in PComments }
     \cup { Case("postings-assert-only", "", << [BaseTx EXCEPT !.posts[2] = [ind |-> i, st |-> s, kind |-> k, acct |-> a, gap |-> g,
                                                            amt |-> <<>>, cost |-> <<>>, asrt |-> b, cmt |-> pc]] >>) :
-          i \in {0, 4}, s \in {"", "*"}, k \in {"real", "paren", "bracket"}, a \in 1..Len(Accounts), g \in {2, 4}, b \in PAsrts \ {<<>>}, pc \in PComments }
+          i \in {0, 4}, s \in {"", "*"}, k \in {"real", "paren", "bracket"}, a \in 1..Len(Accounts), g \in {2, 4, 0}, b \in PAsrts \ {<<>>}, pc \in PComments }
     \cup { Case("postings-cline", "", << [BaseTx EXCEPT !.posts = ps] >>) :
           ps \in { << [cline |-> c[1], ind |-> i] >> \o BaseTx.posts : c \in PComments \ {NoCmt}, i \in {2, 4} }
                  \cup { << BaseTx.posts[1], [cline |-> c[1], ind |-> i], BaseTx.posts[2] >> : c \in PComments \ {NoCmt}, i \in {2, 4} }
